@@ -1189,6 +1189,7 @@ func TestC29(t *testing.T) {
 	var cases []c29Case
 	cases = append(cases, c29ValidCases()...)
 	cases = append(cases, c29SignatureCases()...)
+	cases = append(cases, c29RekeySigCases()...)
 	// thorough repeats the invalid-value table with fresh honest keys (the transported values derive from them)
 	for r := 0; r < ev.Scale(1, 12); r++ {
 		cases = append(cases, c29InvalidCases()...)
@@ -1221,6 +1222,8 @@ func TestC29(t *testing.T) {
 	var inconc []string
 	for i, r := range results {
 		switch {
+		case r.inc == "not-reached":
+			c.Class("resig:exchange-not-reached")
 		case r.inc != "":
 			inconc = append(inconc, mine[i].name+": "+r.inc)
 		case r.v != "":
